@@ -101,7 +101,8 @@ def run(oc, tier, seed):
                "ORDER BY keys x 4 GROUP BY lists in both clause orders; (b) random query structures: every select form, filter "
                "trees of depth <= 3 with every atom kind, negation, all operators and value types, short/relative dates "
                "(d/m/y, negative) on 7 'today's incl. month ends and Feb 28/29, both O/G orders; compared with the denoted "
-               "structure (spec) and with the listener model on the exported tree; (c) _process_query normalisation; "
+               "structure (spec) and with the listener model on the exported tree; (c) _process_query normalisation; (d) abstract "
+               "queries of the query theorem: well-formed, tree_of_query == the ANTLR tree, spec_query == the compiled Query; "
                "non-trivial = query with a sub-filter or >= 2 alternatives")
     for f in sorted(glob.glob(os.path.join(lib.VERIF, "corpus", "C04", "*.json"))):
         c = json.load(open(f))
@@ -124,6 +125,10 @@ def run(oc, tier, seed):
             oc.samples.append(q)
         if not ok:
             break
+    # the domain of the query theorem: well-formedness, parse tree and compiled structure on abstract queries
+    if not any(f[3] is None for f in oc.spec_fail) and not oc.corr_mismatch:
+        from harness import querytie
+        querytie.run(eng, rng, oc, 250 if tier == "quick" else 8000, TODAYS)
     # CLI normalisation
     from zorg.app.config import _process_query
     for q in ["o", "S note W o", "W o", "S file", "S # W o", "W o G none", "S note", "S prop:k W x O create", "@home P1", "S count(note) W o",
